@@ -441,10 +441,7 @@ def judge_event(ctx, ev, got, hist, i):
         clause = 'registry_query_' + ev['q']['op']
     else:
         ok = got == {'kind': 'val', 'v': ev['want']}
-        clause = 'registry_reflects_holidays'
-    elif ev['op'] == 'SetAdj':
-        ok = got == {'kind': 'val', 'v': ev['want']}
-        clause = 'caller_sets_adj'
+        clause = 'caller_sets_adj' if ev['op'] == 'SetAdj' else 'registry_reflects_holidays'
     if not ok:
         case = history_case(ev, hist, i)
         if repr(case['history']) not in _reported:          # the same failing history is reported once
@@ -898,9 +895,10 @@ def judge(ctx, obs, bad):
             continue
         e = o['qs'][int(pos) - 1]
         if name == 'registry_reflects_holidays':
-            case = {'op': 'fetch', 'kind': 'c2s', 'how': o['how'], 'decoy': o['decoy'], 'cfg': o['cfg'], 'edge': o['edge']}
+            case = {'op': 'fetch', 'kind': 'c2s', 'how': o['how'], 'decoy': o['decoy'], 'warm': o.get('warm', False), 'cfg': o['cfg'], 'edge': o['edge']}
         else:
-            case = case_of(o['cfg'], e['q'], how=o['how'], decoy=o['decoy'], kind='c2s', edge=o['edge'])
+            case = case_of(o['cfg'], e['q'], how=o['how'], decoy=o['decoy'], warm=o.get('warm', False), kind='c2s', edge=o['edge'],
+                           asked_before=int(pos) - 1)
         record(ctx, name, case, {'observed': e['out'], 'position': int(pos)})
 
 
@@ -969,7 +967,10 @@ def replay(ctx, body):
     else:
         cfg = case['cfg']
         q = qdict('fetch', 0, 0, 0, '') if case['op'] == 'fetch' else qdict(case['op'], case['t'], case['n'], case['u'],
-                                                                         case['adj'] if case.get('explicit_adj') else '')
+                                                                         case['adj'] if case.get('explicit_adj') else '', case.get('r', 'dt'))
+        if case.get('warm') or case.get('asked_before') or case.get('phase') == 2:
+            print('NOTE: this case was observed on a calendar object that had answered other questions before (warm / asked_before / phase 2); '
+                  'the single-case replay puts it to a fresh object')
         reg = Registry()
         try:
             how = case.get('how', 'class')
@@ -1016,7 +1017,14 @@ def run(ctx):
     lines = ctx.generate('MC_Calendar', 'MC_Calendar_gen_quick.cfg' if q else 'MC_Calendar_gen_thorough.cfg', env=seed)
     ctx.extra['arith_families'] = check_families(lines)
     spread(ctx, s2c_arith, lines)
-    spread(ctx, s2c_registry, simulate_histories(ctx, 4, 450 if q else 3000, 7))
+    # sessions enumerated breadth first: Calendar(...) ; every question ; the caller's edit ; a second edit ; every question of every object
+    ses = ctx.generate('MC_CalendarReg', 'MC_CalendarReg_ses.cfg' if q else 'MC_CalendarReg_ses_thorough.cfg', env=JVM)
+    ctx.extra['sessions'] = len(ses)
+    spread(ctx, s2c_registry, ses)
+    spread(ctx, s2c_registry, simulate_histories(ctx, 4, 300 if q else 2500, 7))
+    for fam in ('histories_with_caller_edit_after_questions', 'history_questions_beyond_range', 'history_questions_other_realisation'):
+        if not ctx.extra.get(fam):
+            raise Machinery('the history generators left a family of cases empty: %s' % fam)
     c2s(ctx, 160 if q else 1600, 150, 60 if q else 600, 150 if q else 1500, 24)
     ctx.exhaustive = False
     ctx.assumptions += [
